@@ -327,7 +327,7 @@ def run(ctx):
     impls = [c for c in p.subclasses(base) if "get_all_trials" in c.methods]
     if ctx.tier == "quick":
         impls = [c for c in impls if c.module.name.startswith("optuna.storages")]
-    ctx.floor("R20.2", "get_all_trials_impls", len(impls), 5)
+    ctx.floor("R20.2", "get_all_trials_impls", len(impls), 5, exact=True)
     for c in impls:
         f = c.methods["get_all_trials"]
         ctx.require("deepcopy" in f.params(), f"R20.2: {c.name}.get_all_trials lost its deepcopy parameter")
